@@ -3,7 +3,7 @@ from pyvc.api import *
 
 contract(
     "liquid2.utils.text:truncate_chars",
-    props=["C19", "C02"],
+    props=["C19", "C02", "C01"],
     params={"val": Str, "num": Int, "end": Str},
     post=[
         # a string that fits is returned unchanged - at the boundary len == num too
@@ -23,7 +23,7 @@ TLS = ["liquid2.stringify:to_liquid_string"]
 
 contract(
     "liquid2.builtin.filters.string:append",
-    props=["C19", "C02"],
+    props=["C19", "C02", "C01"],
     params={"val": Union(Str, Int, NoneT), "arg": ARG},
     inline=TLS,
     post=["implies(isinstance(val, str) and isinstance(arg, str), result == val + arg)",
@@ -37,7 +37,7 @@ contract(
 
 contract(
     "liquid2.builtin.filters.string:prepend",
-    props=["C19", "C02"],
+    props=["C19", "C02", "C01"],
     params={"val": Union(Str, Int, NoneT), "arg": ARG},
     inline=TLS,
     post=["implies(isinstance(val, str) and isinstance(arg, str), result == arg + val)",
@@ -49,7 +49,7 @@ contract(
 
 contract(
     "liquid2.builtin.filters.string:slice_",
-    props=["C19", "C02"],
+    props=["C19", "C02", "C01"],
     partial_domain="string input only: the list branch (`return list(val[_start:end])`) is outside this domain",
     params={"val": Str, "start": Union(Int, Str, Float, NoneT), "length": Union(Int, Str, Float, NoneT)},
     globals_={"MAX_STR_INT": Int},
@@ -72,7 +72,7 @@ contract(
 for _name, _idx in (("first", "0"), ("last", "-1")):
     contract(
         f"liquid2.builtin.filters.array:{_name}",
-        props=["C19", "C02"],
+        props=["C19", "C02", "C01"],
         params={"obj": Union(ListOf("any"), ListOf("int"), Str, Int, NoneT)},
         post=[f"implies(isinstance(obj, list) and len(obj) > 0, result == obj[{_idx}])",
               "implies(isinstance(obj, list) and len(obj) == 0, result is None)",
@@ -87,7 +87,7 @@ for _name, _expr in (("upcase", "upper"), ("downcase", "lower"), ("capitalize", 
                      ("strip", "strip"), ("lstrip", "lstrip"), ("rstrip", "rstrip")):
     contract(
         f"liquid2.builtin.filters.string:{_name}",
-        props=["C19", "C02"],
+        props=["C19", "C02", "C01"],
         params={"val": SV},
         inline=TLS,
         post=[f"implies(isinstance(val, str), result == val.{_expr}())",
@@ -97,7 +97,7 @@ for _name, _expr in (("upcase", "upper"), ("downcase", "lower"), ("capitalize", 
 
 contract(
     "liquid2.builtin.filters.string:remove",
-    props=["C19", "C02"],
+    props=["C19", "C02", "C01"],
     params={"val": SV, "arg": ARG},
     inline=TLS,
     post=["implies(isinstance(val, str) and isinstance(arg, str), result == val.replace(arg, ''))",
@@ -107,7 +107,7 @@ contract(
 
 contract(
     "liquid2.builtin.filters.string:remove_first",
-    props=["C19", "C02"],
+    props=["C19", "C02", "C01"],
     params={"val": SV, "arg": ARG},
     inline=TLS,
     post=["implies(isinstance(val, str) and isinstance(arg, str), result == val.replace(arg, '', 1))",
@@ -118,7 +118,7 @@ contract(
 
 contract(
     "liquid2.builtin.filters.string:replace",
-    props=["C19", "C02"],
+    props=["C19", "C02", "C01"],
     params={"val": SV, "seq": ARG, "sub": ARG},
     inline=TLS,
     post=["implies(isinstance(val, str) and isinstance(seq, str) and isinstance(sub, str), result == val.replace(seq, sub))",
@@ -128,7 +128,7 @@ contract(
 
 contract(
     "liquid2.builtin.filters.string:replace_first",
-    props=["C19", "C02"],
+    props=["C19", "C02", "C01"],
     params={"val": SV, "seq": ARG, "sub": ARG},
     inline=TLS,
     post=["implies(isinstance(val, str) and isinstance(seq, str) and isinstance(sub, str), result == val.replace(seq, sub, 1))",
@@ -140,7 +140,7 @@ contract(
 # replaced, everything else is kept; no occurrence: unchanged
 contract(
     "liquid2.builtin.filters.string:remove_last",
-    props=["C19", "C02"],
+    props=["C19", "C02", "C01"],
     params={"val": Str, "arg": Str},
     inline=TLS,
     post=["implies(arg != '' and arg in val, result == val[:val.rfind(arg)] + val[val.rfind(arg) + len(arg):])",
@@ -151,7 +151,7 @@ contract(
 
 contract(
     "liquid2.builtin.filters.string:replace_last",
-    props=["C19", "C02"],
+    props=["C19", "C02", "C01"],
     params={"val": Str, "seq": Str, "sub": Str},
     inline=TLS,
     post=["implies(seq != '' and seq in val, result == val[:val.rfind(seq)] + sub + val[val.rfind(seq) + len(seq):])",
@@ -163,7 +163,7 @@ contract(
 # split: inverse of join for a non-empty separator (library fact sep.join(s.split(sep)) == s), the documented special cases otherwise
 contract(
     "liquid2.builtin.filters.string:split",
-    props=["C19", "C02"],
+    props=["C19", "C02", "C01"],
     params={"val": Str, "sep": Union(Str, NoneT)},
     inline=TLS,
     post=["implies(isinstance(sep, str) and sep != '' and val != '' and val != sep, sep.join(result) == val and len(result) >= 1)",
@@ -176,7 +176,7 @@ contract(
 # words were dropped
 contract(
     "liquid2.builtin.filters.string:truncatewords",
-    props=["C19", "C02"],
+    props=["C19", "C02", "C01"],
     params={"val": Str, "num": Int, "end": Str},
     globals_={"MAX_STR_INT": Int},
     pre=["MAX_STR_INT == 0 or MAX_STR_INT >= 640"],
@@ -192,7 +192,7 @@ ENV_PLAIN = Rec("Environment", _module="liquid2.environment", auto_escape=FalseT
 
 contract(
     "liquid2.builtin.filters.string:url_encode",
-    props=["C19", "C02"],
+    props=["C19", "C02", "C01"],
     params={"val": Str, "environment": ENV_PLAIN},
     partial_domain="auto_escape off: the Markup-wrapping branch is outside this domain",
     inline=TLS,
@@ -203,7 +203,7 @@ contract(
 
 contract(
     "liquid2.builtin.filters.string:url_decode",
-    props=["C19", "C02"],
+    props=["C19", "C02", "C01"],
     params={"val": Str},
     inline=TLS,
     post=["result == urllib.parse.unquote_plus(val)"],
@@ -212,7 +212,7 @@ contract(
 
 contract(
     "liquid2.builtin.filters.string:escape",
-    props=["C19", "C02"],
+    props=["C19", "C02", "C01"],
     params={"val": Str, "environment": ENV_PLAIN},
     partial_domain="auto_escape off: the markupsafe branch is outside this domain",
     inline=TLS,
@@ -222,7 +222,7 @@ contract(
 
 contract(
     "liquid2.builtin.filters.string:escape_once",
-    props=["C19", "C02"],
+    props=["C19", "C02", "C01"],
     params={"val": Str, "environment": ENV_PLAIN},
     partial_domain="auto_escape off: the markupsafe branch is outside this domain",
     inline=TLS,
